@@ -239,6 +239,10 @@ def apply_target(path, cls_, rem, ins):
            loops={1: loop(r"for hook in MutableTree\.hooks\[", lambda c: And(c.g.fs == c.old.g.fs, c.g.meta_new == c.old.g.meta_new,
                                                                            c.g.modes_changed == c.old.g.modes_changed))},
            ensures={"committed": lambda c: And(c.g.meta_new, lift(c.calls("_FileMover.rollback") == 0)),
+                    # (C14) a transform is applied only after its raw conflicts were checked, before the first file-system effect
+                    "conflicts_checked_before_anything_is_touched": lambda c: Implies(
+                        Not(c.old.no_conflicts), lift(c.calls("?self._check_malformed") == 1 and
+                                                      c.before("?self._check_malformed", "%s._apply_removals" % cls_))),
                     "replaced_content_discarded_once": lambda c: lift(c.calls("_FileMover.apply_deletions") == 1),
                     "phases_in_order": lambda c: lift(c.before("%s._apply_removals" % cls_, "%s._apply_insertions" % cls_))},
            raises={"Exception": {"restored": restored, "modes_restored": modes_restored,
